@@ -97,7 +97,7 @@ type Func struct {
 	Ret int
 }
 
-const NumRetKinds = 7
+const NumRetKinds = 9
 
 const (
 	NCells            = 16
@@ -266,7 +266,7 @@ func Generate(t *tape.Tape, o Opts) *Plan {
 			case AClock:
 				a.A = int32(t.Choose(2))
 			case ABrIfRet:
-				a.A = int32(t.Choose(40)) // arguments are small numbers: sometimes taken
+				a.A, a.B = int32(t.Choose(40)), int32(t.Choose(2)) // arguments are small numbers: sometimes taken
 			case AReaddir:
 				// buffer sizes from "not even one header" to several entries; cookies computed, not returned
 				a.A, a.B = int32(tape.Pick(t, []int{24, 40, 64, 100})), int32(t.Choose(3))
@@ -454,7 +454,12 @@ func (p *Plan) Encode() []byte {
 					LocalGet(1).I32Const(3).I32Add().LocalSet(1)
 			case ABrIfRet:
 				// (atoms are emitted at the top level of the function body: label 0 is the function's)
-				c.LocalGet(1).LocalGet(1).I32Const(a.A).I32Eq().BrIf(0).Drop()
+				if a.B == 1 {
+					// ... with another operand pending below the result when the branch leaves the function
+					c.I32Const(0x5a5a5a).LocalGet(1).LocalGet(1).I32Const(a.A).I32Eq().BrIf(0).Drop().Drop()
+				} else {
+					c.LocalGet(1).LocalGet(1).I32Const(a.A).I32Eq().BrIf(0).Drop()
+				}
 			case AClock:
 				c.I32Const(a.A).I64Const(1).I32Const(0x3e0).Call(l.ClockTimeGet).I32Const(1000).I32Mul().
 					I32Const(0x3e0).I32Load(0).I32Add().LocalGet(1).I32Add().LocalSet(1)
@@ -534,6 +539,11 @@ func (p *Plan) Encode() []byte {
 				c.I32Const(9).BrTable([]uint32{0}, 0)
 			case 6:
 				c.LocalSet(1).Block(wasmb.BlockVoid).Block(wasmb.BlockVoid).LocalGet(1).Br(2).End().End().Unreachable()
+			case 7:
+				// other operands are pending below the result when the function is left
+				c.LocalSet(1).I64Const(0x5a5a5a5a5a).LocalGet(1).Return()
+			case 8:
+				c.LocalSet(1).I32Const(0x5a5a5a).I32Const(0x3c3c3c).LocalGet(1).Br(0)
 			}
 		}
 		m.AddFunc(i32, i32, []wasmb.ValType{wasmb.I32, wasmb.I32}, c.B, fmt.Sprintf("f%d", i))
